@@ -36,6 +36,14 @@ def gen_cases(ctx, label, n_inst):
         pc = rng.random() < 0.2
         names = rng.choice([['gen'], ['gre'], ['maxsize', 'gen'], ['gre', 'mincost'], ['maxsize'], ['lmb', 'lsb'],
                             ['minsize', 'mincostlsb'], [], ['maxsize', 'gre', 'minsqcost']])
+        if i % 6 == 4:
+            # no lecturer has a target (every target 0, as generated without -lt) and a load-balancing criterion is run:
+            # the load deviation then coincides with the load, a tempting special case
+            ast = instgen.gen_ast(rng, na=3, maxS=4, maxP=3, maxL=3, lower=False, zero_caps=False)
+            for le in ast['lecturers']:
+                le[0], le[1] = 0, 0
+            names = rng.choice([['lsb'], ['maxsize', 'lsb', 'mincost'], ['lsb', 'maxsize'], ['mincostlsb', 'maxsize'],
+                                ['lmb', 'mincost'], ['gre', 'lsb']])
         crits = lpcommon.gen_crits(rng, ast, names=names)
         argv = lpcommon.argv_of(ast['na'], twopl, pc, stab, crits, rng)
         limit = rng.choice([None, 5, 5, 2])
